@@ -241,3 +241,24 @@ PLANS["C12"] = {
                 need("old_value_rechecks", 1000000), need("index_errors_confirmed", 20000), need_set("key_type_pairs", 8),
                 need_set("index_classes:nth", 8), need_set("index_classes:slice", 8), need_set("index_classes:str-slice", 8)],
 }
+
+PLANS["C13"] = {
+    "jobs": {
+        "quick": [("", "release", 400000), ("", "dev", 40000)],
+        "thorough": [("", "release", 16000000), ("", "dev", 1600000)],
+    },
+    "rule": "7 of 8 cases: one eligible dictionary word (all 166 non-immediate native words except the tag words, the printing/"
+            "formatting words, the external/non-deterministic ones and <name>; chosen round-robin) is applied to three arguments "
+            "drawn from 13 value classes, once untagged and once as tagged copies (tags on the top, second or every argument and/or "
+            "on nested elements, keys and values, tags on tags, the formatting tag, read-style len/big tags) in two clones of one "
+            "interpreter; outcome, error payload, result stack, variables and output must agree modulo tags, and every tagged value in "
+            "the result must be one of the tagged inputs (or carry exactly the tags the word attaches in the untagged run). 1 of 8 "
+            "cases: a sequence of 3..12 tag words (insert-tag remove-tag get-tag with-tags tags) against a (value, attached map) "
+            "model; the value must stay equal. distinct = distinct (word, argument classes, tag positions, outcome)",
+    "assumptions": ["tag maps use string keys only (maps with keys of different types are C12's known finding)",
+                    "nil and { } both mean 'no tags'",
+                    "allocation-size arguments of int! / uint! are kept <= 512 bits"],
+    "require": [need_set("words_covered", 166), need_set("words_both_succeeded", 150), need("pairs_both_succeeded", 100000),
+                need("pairs_both_failed", 100000), need("tagop:insert-tag", 20000), need("tagop:with-tags", 10000),
+                need_set("tag_positions", 7), need_set("arg_classes", 13)],
+}
